@@ -622,6 +622,14 @@ Theorem c14_bytes_depend_on_streams : forall rc e m1 m2, wf_model e m1 = true ->
 Proof. exact bytes_depend_on_streams. Qed.
 Print Assumptions c14_bytes_depend_on_streams.
 
+(* The context reader of the correspondence run finds ip / sp by FIELD NAME in the context structures as format.rs declares them
+   (layouts and field names regenerated on every run): today these are the 107th / 110th integer of CONTEXT_X86 (eip / esp), the
+   38th / 26th of CONTEXT_AMD64 (rip / rsp), iregs[15] / iregs[13] of CONTEXT_ARM, pc / sp of both ARM64 contexts, epc / iregs[29]
+   of CONTEXT_MIPS; a reordered or resized field breaks this theorem (the extracted positions are numbers). *)
+Theorem c14_context_registers_by_name : forall arch, ctx_regs arch = ctx_regs_named arch.
+Proof. exact ctx_regs_by_name. Qed.
+Print Assumptions c14_context_registers_by_name.
+
 (* names are kept apart: the integer a UTF-16 name is carried as determines the name *)
 Theorem c14_names_injective : forall u1 u2,
   Forall (fun x => 0 <= x < 65536) u1 -> Forall (fun x => 0 <= x < 65536) u2 -> pack_units u1 = pack_units u2 -> u1 = u2.
